@@ -40,7 +40,7 @@ func mkMessage(size int) []byte {
 
 func genC06(t *Tape, tier string) *Scenario {
 	sc := &Scenario{Prop: "C06"}
-	sc.Srv = drawCfg(t, cfgOpts{})
+	sc.Srv = drawCfg(t, cfgOpts{allowTLS: true})
 	sc.Srv.MaxRcpt = 0
 	if sc.Srv.LMTP && t.Bool() {
 		sc.BE.Flavor = beLMTP
